@@ -38,6 +38,13 @@ var zzBadFrags = []zzFrag{
 	{"local %I;", true},                   // local outside a function (only when not inside one)
 	{"(a ? (b ? 1 : 2) : 3)", false},      // nested ternaries
 	{"(a ? 1 : (b ? 2 : 3))", false},
+	{"(a ? 1 : b ? 2 : 3)", false},        // ... chained without parentheses
+	{"(a ? b ? 1 : 2 : 3)", false},
+	{"(a ? 1 : b + %D ? 2 : 3)", false},
+	{"(a ? 1 : !b ? 2 : 3)", false},
+	// (a parenthesised ternary as the *condition* of another, `(a ? 1 : 2) ? 3 : 4`, is
+	// accepted and evaluated correctly; whether that counts as nesting is not settled by
+	// the statement, so it is not asserted either way)
 	{"a # %I", false},                     // illegal characters
 	{"a & b", false},
 	{"a | b", false},
